@@ -43,10 +43,11 @@ structure Top where
   lams : List Cand
   deriving Repr
 
-/-- `_node_matches_argspec(node, func)`: compares `node.args.args` (which does NOT contain the
-positional-only parameters) with `argspec.args` (which does), vararg, kwarg and kwonly names. -/
+/-- `_node_matches_argspec(node, func)` (after /repo e1be7e7): compares `node.args.posonlyargs ++ node.args.args`
+with `argspec.args` (both list the positional-only parameters first), vararg, kwarg and kwonly names.  Defaults
+and the position of the `/` marker are not compared. -/
 def nodeMatches (s : Sig) (a : ArgSpec) : Bool :=
-  s.args == a.args && a.varargs == s.vararg && a.varkw == s.kwarg && s.kwonly == a.kwonlyargs
+  s.posonly ++ s.args == a.args && a.varargs == s.vararg && a.varkw == s.kwarg && s.kwonly == a.kwonlyargs
 
 /-- the shortlist loop: statements up to (excluding) the first one starting after `def_line` -/
 def searchNodes (defLine : Nat) : List Top → List Top
@@ -75,10 +76,5 @@ def select (cands : List Cand) (defLine : Nat) (spec : ArgSpec) : Sel :=
 
 def parseLambda (tops : List Top) (defLine : Nat) (spec : ArgSpec) : Sel :=
   select (lambdaNodes defLine tops) defLine spec
-
-/-- class predicate of the known finding: the lambda being converted has positional-only parameters and
-shares its first line with another candidate -/
-def posonlyAmbiguity (cands : List Cand) (defLine : Nat) (target : Cand) : Bool :=
-  target.sig.posonly ≠ [] && (cands.filter (spans defLine)).length > 1
 
 end Malt.Lambda
